@@ -214,6 +214,7 @@ func (e *Engine) loadSpecs(externDir string) error {
 				old.FinalTags = append(old.FinalTags, t.FinalTags...)
 				old.Private = append(old.Private, t.Private...)
 				old.Owns = append(old.Owns, t.Owns...)
+				old.Inits = append(old.Inits, t.Inits...)
 				old.Atomic = append(old.Atomic, t.Atomic...)
 				old.Confined = append(old.Confined, t.Confined...)
 				old.HB = append(old.HB, t.HB...)
